@@ -114,6 +114,7 @@ func runC09(p *core.Program, r *core.Report) {
 	r.Rule("C09.walks", "whole-table walks visit buckets 0..len-1 exactly", 12)
 	r.Rule("C09.enumer", "Keys/Values/Entries construct their enumerator with the matching discriminator", 30)
 	r.Rule("C09.sort", "Sort: collect, sort.Sort, clear, re-insert all at the tail", 12)
+	r.Rule("C09.key-domain", "operations of one collection agree on which keys exist: no lookup/removal rejects a key the insertion path stores", 1)
 	r.Rule("C09.index", "bucket indices are non-negative (unsigned modulo or masked hash)", 40)
 	modes := hmapModes(p)
 	names := append([]string{}, c09Types...)
@@ -135,6 +136,7 @@ func runC09(p *core.Program, r *core.Report) {
 		h.checkEnumer()
 		h.checkSort()
 		h.checkIndexSign()
+		h.checkKeyDomain()
 	}
 }
 
@@ -149,6 +151,7 @@ func runC12(p *core.Program, r *core.Report) {
 	r.Rule("C12.rehash", "rehash: 2n+1, threshold from new capacity, all old buckets re-bucketed with the lookup hash", 3)
 	r.Rule("C12.walks", "whole-table walks visit buckets 0..len-1 exactly", 3)
 	r.Rule("C12.enumer", "enumerator constructors carry the matching discriminator and start index", 3)
+	r.Rule("C12.key-domain", "operations of one collection agree on which keys exist: no lookup/removal rejects a key the insertion path stores", 1)
 	r.Rule("C12.index", "bucket indices are non-negative (unsigned modulo or masked hash)", 8)
 	r.Rule("C12.serial", "IntIntMap.ToBytes ~ ToObject agree on the layout", 1)
 	modes := hmapModes(p)
@@ -166,6 +169,7 @@ func runC12(p *core.Program, r *core.Report) {
 		h.checkWalks()
 		h.checkEnumer()
 		h.checkIndexSign()
+		h.checkKeyDomain()
 	}
 	c12Serial(p, r)
 	c12EnumWalk(p, r)
